@@ -138,6 +138,8 @@ def run(chk):
     from harness import c06, c09
     msg_lines = [l for l in c09.gen_lines(rng, chk.tier) if l.startswith('mysqlhs ')]
     msg_lines += [l for l in c06.gen_lines(rng, impl, 'quick') if l.startswith('ssl2')]
+    # SSL 2.0 records around the ends of the 15-bit length of the two-byte header
+    msg_lines += ['ssl2bigrec %d' % n for n in (40, 255, 256, 16383, 16384, 16385, 21845, 32766, 32767)]
     from harness import c08
     msg_lines += [l for l in c08.gen_lines(rng, 'quick') if l.startswith('rrsigenc ')]    # built from datetimes in zones other than UTC
     nm = 0
